@@ -75,6 +75,12 @@ def slot_variants():
     for k, hv in hosts.items():
         add("host:" + k, build(host=hv))
         add("host10:" + k, build(host=hv, version=b"HTTP/1.0"))
+    for ver in (b"HTTP/1.2", b"HTTP/1.9"):
+        for k in ("absent", "twice", "empty", "port"):
+            add("host%s:%s" % (ver[-3:].decode(), k), build(host=hosts[k], version=ver))
+    add("host:x+empty", build(host=(b"Host: a", b"Host:")))
+    add("host:empty+x", build(host=(b"Host:", b"Host: a")))
+    add("host:empty+empty", build(host=(b"Host:", b"Host:  ")))
     hdrs = {
         "plain2": (b"X-A: 1", b"x-a: 2", b"X-B:3"), "fold": (b"X-A: 1", b" more", b"\tyet"),
         "fold-empty": (b"X-A:", b" v"), "fold-ws-only": (b"X-A: 1", b"  "),
@@ -105,6 +111,12 @@ def slot_variants():
         add("cl:" + k, build(method=b"POST", framing=(line,), body=body))
     add("cl:two-equal", build(method=b"POST", framing=(b"Content-Length: 3", b"Content-Length: 3"), body=b"abc"))
     add("cl:two-differ", build(method=b"POST", framing=(b"Content-Length: 3", b"Content-Length: 4"), body=b"abcd"))
+    add("cl:3+empty", build(method=b"POST", framing=(b"Content-Length: 3", b"Content-Length:"), body=b"abc"))
+    add("cl:empty+3", build(method=b"POST", framing=(b"Content-Length: ", b"Content-Length: 3"), body=b"abc"))
+    add("cl:3+empty+3", build(method=b"POST", framing=(b"Content-Length: 3", b"Content-Length:", b"Content-Length: 3"),
+                              body=b"abc"))
+    add("te:chunked+empty", build(method=b"POST", framing=TE + (b"Transfer-Encoding:",), body=chunked([b"abc"])))
+    add("te:empty+chunked", build(method=b"POST", framing=(b"Transfer-Encoding:",) + TE, body=chunked([b"abc"])))
     add("cl:short-body", build(method=b"POST", framing=(b"Content-Length: 5",), body=b"abc"))
     add("cl+te", build(method=b"POST", framing=(b"Content-Length: 3",) + TE, body=chunked([b"abc"])))
     add("te+cl", build(method=b"POST", framing=TE + (b"Content-Length: 3",), body=chunked([b"abc"])))
